@@ -74,8 +74,22 @@ def judge(rec, rnd, tmp, k):
         return
     if not exp:
         return
+    # every other budget is run FROM another folder that holds files of the same relative names (another year's budget): a command given a config
+    # folder reads that budget's files only
+    cwd0 = None
+    if k % 2 == 0:
+        cwd0 = root + '-elsewhere'
+        cfgn = b.get('cfg_name') or 'config'
+        os.makedirs(os.path.join(cwd0, cfgn), exist_ok=True)
+        with open(os.path.join(cwd0, cfgn, 'views.rules'), 'w') as f:
+            f.write('[Decoy View]\nfilter: true\n')
+        with open(os.path.join(cwd0, cfgn, 'merchants.rules'), 'w') as f:
+            f.write('[Decoy Rule]\nmatch: true\ncategory: Decoy\nsubcategory: Decoy\n')
+        with open(os.path.join(cwd0, cfgn, 'merchant_categories.csv'), 'w') as f:
+            f.write('Pattern,Merchant,Category,Subcategory\n.*,Decoy,Decoy,Decoy\n')
+        rec.count('budgets_run_from_a_folder_with_same_named_files')
     # ---- JSON run
-    pj = run_up(root, cfg, 'json')
+    pj = run_up(root, cfg, 'json', cwd=cwd0)
     rec.count('cli_runs')
     if pj.returncode != 0:
         rec.violation('tally-up-fails', f'exit {pj.returncode}: {(pj.stderr or pj.stdout)[-300:]}', case)
@@ -95,7 +109,9 @@ def judge(rec, rnd, tmp, k):
     if b['supplemental'] and ('orders: ' in pj.stdout and 'transactions' in [l for l in pj.stdout.splitlines() if l.strip().startswith('orders:')][0:1].__repr__()):
         rec.violation('supplemental-source-counted-as-transactions', 'the supplemental source is listed with a transaction count', case)
     # ---- HTML run
-    ph = run_up(root, cfg)
+    ph = run_up(root, cfg, cwd=cwd0)
+    if cwd0:
+        shutil.rmtree(cwd0, ignore_errors=True)
     rec.count('cli_runs')
     html = os.path.join(base, 'output', 'spending_summary.html')
     if ph.returncode != 0 or not os.path.exists(html):
@@ -443,6 +459,42 @@ def judge_explain_view_period(rec, rnd, tmp, k):
         shutil.rmtree(root, ignore_errors=True)
 
 
+def judge_transforms_without_rules(rec, tmp):
+    """A rules file that holds field transforms (and variables) but no [rule] yet: the transforms are still applied to every row - the report is the one the
+    same file gives once a rule that matches nothing is added; likewise for unpadded ISO dates, which `%Y-%m-%d` reads like padded ones."""
+    rows = [('2025-01-03', 'APLPAY STARBUCKS', 4.5), ('2025-01-09', 'STARBUCKS', 4.5), ('2025-2-7', 'APLPAY BLUE BOTTLE', 7.0), ('2025-03-9', 'BLUE BOTTLE', 7.0),
+            ('2025-11-2', 'SQ *BLUE BOTTLE', 7.0)]
+    transforms = 'field.description = regex_replace(field.description, "^(APLPAY|SQ \\*)\\s*", "")\nis_small = amount < 5\n'
+    outs = {}
+    for name, extra in (('transforms-only', ''), ('plus-unmatched-rule', '\n[Never]\nmatch: contains("zz-never-zz")\ncategory: Never\n')):
+        root = os.path.join(tmp, 'tr-' + name)
+        os.makedirs(os.path.join(root, 'config'))
+        os.makedirs(os.path.join(root, 'data'))
+        with open(os.path.join(root, 'config', 'settings.yaml'), 'w') as f:
+            f.write('year: 2025\nmerchants_file: config/merchants.rules\ndata_sources:\n  - name: Card\n    file: data/card.csv\n    format: "{date:%Y-%m-%d},{description},{amount}"\n')
+        with open(os.path.join(root, 'config', 'merchants.rules'), 'w') as f:
+            f.write(transforms + extra)
+        with open(os.path.join(root, 'data', 'card.csv'), 'w') as f:
+            f.write('Date,Description,Amount\n' + ''.join('%s,%s,%.2f\n' % r for r in rows))
+        p = run_up(root, os.path.join(root, 'config'), 'json')
+        rec.count('cli_runs')
+        try:
+            js = B.json_from_stdout(p.stdout)
+            outs[name] = (sorted((m['name'], round(m['total'], 2), m['count']) for m in js['merchants']), sorted(js.get('by_month', {})))
+        except Exception:
+            outs[name] = 'no report (exit %d): %s' % (p.returncode, (p.stderr or p.stdout)[-150:])
+        shutil.rmtree(root, ignore_errors=True)
+    rec.case()
+    rec.count('transforms_without_rules_checks')
+    case = {'kind': 'transforms-without-rules'}
+    a, b2 = outs['transforms-only'], outs['plus-unmatched-rule']
+    if a != b2:
+        rec.violation('transforms-not-applied-without-rules', f'rules file with transforms only: {a}; with an additional rule that matches nothing: {b2}', case)
+    elif isinstance(a, tuple) and (sum(c for _, _, c in a[0]) != len(rows) or a[1] != ['2025-01', '2025-02', '2025-03', '2025-11']):
+        rec.violation('report-transactions-differ:rows-lost', f'{len(rows)} well-formed rows (dates 2025-2-7, 2025-03-9, 2025-11-2 among them, format %Y-%m-%d): the report has '
+                      f'{a[0]} in months {a[1]}', case)
+
+
 def judge_rerun_same_output(rec, rnd, tmp, k):
     """`tally up` run again into the same output folder after a statement or the rules changed: what is on disk afterwards is the report of the
     budget as it is NOW (page and, with --no-embedded-html, the files beside it), also when the new data has the same size as the old."""
@@ -507,6 +559,7 @@ def run(rec, shard, nshards, t):
             judge_explain_view_period(rec, rnd, tmp, k)
             judge_rerun_same_output(rec, rnd, tmp, k)
         if shard == 0:
+            judge_transforms_without_rules(rec, tmp)
             b = B.gen_budget(rnd)
             rec.sample({'settings': B.settings_dict(b), 'first_file': b['sources'][0]['text'][:300]})
     finally:
@@ -518,6 +571,9 @@ def replay(rec, case):
     rnd = core.rng_for('C11', 'replay')
     tmp = tempfile.mkdtemp(prefix='vt-c11-')
     try:
+        if case.get('kind') == 'transforms-without-rules':
+            judge_transforms_without_rules(rec, tmp)
+            return
         if case.get('kind') == 'rerun-same-output':
             for k in range(12):
                 judge_rerun_same_output(rec, rnd, tmp, k)
